@@ -4,27 +4,16 @@
 From Verif Require Import Common.Base C19.Model C19.Proofs1 C19.Proofs2.
 Local Open Scope Z_scope.
 
-Section Span.
+(* generic: any predicate on ledgers that is closed under appending the two kinds of increments the
+   exporter makes holds of the ledger of every history *)
+Section LedgerInv.
   Variable o : eopts.
-  Hypothesis Hsig : o_sig o <> Profiles.
-
-  Definition spanok (l : ledger) : Prop :=
-    lget (SpanSent (o_sig o)) l = (if o_tracing o then lget (ExpSent (o_sig o)) l else 0) /\
-    lget (SpanFailed (o_sig o)) l = (if o_tracing o then lget (ExpFailed (o_sig o)) l else 0).
+  Variable spanok : ledger -> Prop.
+  Hypothesis spanok_end_op : forall l n r, spanok l -> spanok (l ++ obs_end_op (o_tracing o) (o_sig o) n r).
+  Hypothesis spanok_enq : forall l n, spanok l -> spanok (l ++ obs_enqueue_failed (o_sig o) n).
+  Hypothesis spanok_nil : spanok [].
 
   Definition SP (st : est) : Prop := spanok (s_led st).
-
-  Lemma spanok_end_op l n r : spanok l -> spanok (l ++ obs_end_op (o_tracing o) (o_sig o) n r).
-  Proof.
-    unfold spanok. rewrite !lget_app. intros [A B].
-    destruct (o_tracing o), (o_sig o), r; try congruence; simpl; lia.
-  Qed.
-
-  Lemma spanok_enq l n : spanok l -> spanok (l ++ obs_enqueue_failed (o_sig o) n).
-  Proof.
-    unfold spanok. rewrite !lget_app. intros [A B].
-    destruct (o_tracing o), (o_sig o); try congruence; simpl; lia.
-  Qed.
 
   Lemma on_done_SP d r st : SP st -> SP (on_done o d r st).
   Proof. unfold SP, on_done. cbn. destruct (is_wfr o && negb (eres_is_ok r)); [apply spanok_enq|auto]. Qed.
@@ -91,11 +80,14 @@ Section Span.
   Proof.
     intros H. unfold offer.
     assert (Hr : SP (reject o (add_offered st n) n)) by (unfold SP, reject; cbn; apply spanok_enq; exact H).
+    assert (Hnote : forall s k, SP s -> SP (note_send o s k)) by (intros s k Hs; unfold note_send; destruct (is_wfr o); exact Hs).
     destruct (qc o) as [c|].
     - destruct (q_storage c).
-      + destruct (over (q_cap c) _); [exact Hr|exact H].
-      + destruct (el_size o n =? 0); [exact H|]. destruct (over (q_cap c) (el_size o n)); [exact Hr|].
-        destruct (over (q_cap c) _); [exact Hr|exact H].
+      + destruct (q_block c && over (q_cap c) (el_size o n)); [apply Hnote, Hr|].
+        destruct (over (q_cap c) _); [unfold no_room; apply Hnote, Hr|].
+        destruct (n =? o_badmarshal o); [apply Hnote, Hr|apply Hnote, H].
+      + destruct (el_size o n =? 0); [apply Hnote, H|]. destruct (over (q_cap c) (el_size o n)); [apply Hnote, Hr|].
+        destruct (over (q_cap c) _); [unfold no_room; apply Hnote, Hr|apply Hnote, H].
     - apply work_SP. exact H.
   Qed.
 
@@ -132,11 +124,59 @@ Section Span.
   Qed.
 
   Lemma init_SP outs : SP (init_est outs).
-  Proof. unfold SP, spanok. cbn. destruct (o_tracing o); split; reflexivity. Qed.
+  Proof. exact spanok_nil. Qed.
 
   Lemma steps_SP ops st : SP st -> SP (fold_left (step o) ops st).
   Proof. revert st. induction ops as [|op ops IH]; intros st H; cbn [fold_left]; [exact H|]. apply IH, step_SP, H. Qed.
 
   Lemma run_exporter_SP outs ops : SP (run_exporter o outs ops).
   Proof. apply shutdown_SP, steps_SP, init_SP. Qed.
+End LedgerInv.
+
+(* instance 1: recorded span attributes add up to the counters *)
+Section Span.
+  Variable o : eopts.
+  Hypothesis Hsig : o_sig o <> Profiles.
+
+  Definition spanok (l : ledger) : Prop :=
+    lget (SpanSent (o_sig o)) l = (if o_tracing o then lget (ExpSent (o_sig o)) l else 0) /\
+    lget (SpanFailed (o_sig o)) l = (if o_tracing o then lget (ExpFailed (o_sig o)) l else 0).
+
+  Lemma spanok_end_op l n r : spanok l -> spanok (l ++ obs_end_op (o_tracing o) (o_sig o) n r).
+  Proof.
+    unfold spanok. rewrite !lget_app. intros [A B].
+    destruct (o_tracing o), (o_sig o), r; try congruence; simpl; lia.
+  Qed.
+
+  Lemma spanok_enq l n : spanok l -> spanok (l ++ obs_enqueue_failed (o_sig o) n).
+  Proof.
+    unfold spanok. rewrite !lget_app. intros [A B].
+    destruct (o_tracing o), (o_sig o); try congruence; simpl; lia.
+  Qed.
+
+  Lemma spanok_nil : spanok [].
+  Proof. unfold spanok. cbn. destruct (o_tracing o); split; reflexivity. Qed.
+
+  Lemma run_exporter_span outs ops : spanok (s_led (run_exporter o outs ops)).
+  Proof. exact (run_exporter_SP o spanok spanok_end_op spanok_enq spanok_nil outs ops). Qed.
 End Span.
+
+(* instance 2: a PROFILES exporter moves no instrument at all (obs_report_sender.go / obs_queue.go: "No
+   metrics recorded for profiles") *)
+Section Profiles.
+  Variable o : eopts.
+  Hypothesis Hsig : o_sig o = Profiles.
+
+  Definition quiet (l : ledger) : Prop := forall c, is_span_counter c = false -> lget c l = 0.
+
+  Lemma quiet_end_op l n r : quiet l -> quiet (l ++ obs_end_op (o_tracing o) (o_sig o) n r).
+  Proof.
+    intros H c Hc. rewrite lget_app, (H c Hc), Hsig. destruct (o_tracing o), r, c; simpl in *; try discriminate; lia.
+  Qed.
+
+  Lemma quiet_enq l n : quiet l -> quiet (l ++ obs_enqueue_failed (o_sig o) n).
+  Proof. intros H c Hc. rewrite lget_app, (H c Hc), Hsig. simpl. lia. Qed.
+
+  Lemma run_exporter_quiet outs ops : quiet (s_led (run_exporter o outs ops)).
+  Proof. exact (run_exporter_SP o quiet quiet_end_op quiet_enq (fun c _ => eq_refl) outs ops). Qed.
+End Profiles.
